@@ -6,7 +6,7 @@
    revisions, range results incl. more, header revisions) and the watch events.  `sim A m` (Proofs/Adapters.v) is
    "A refines the engine contract" — the statement C11 proves for memkv, Badger, TiKV and the wrapper. *)
 From KB Require Import Base.Cases Model.Store Model.Adapters Model.C11Cases Model.Coder Model.BackendSeq Model.C12Cases
-  Proofs.Adapters Proofs.C11Cases Proofs.C12Wrapper Proofs.C12Indep Proofs.C12Cases.
+  Proofs.Adapters Proofs.C11Cases Proofs.C12Wrapper Proofs.C12Indep Proofs.C12Compact Proofs.C12Cases.
 Local Open Scope N_scope.
 
 (* the full statement: every sequential history, any two adapters that refine the contract *)
@@ -14,26 +14,55 @@ Definition C12_full_statement : Prop :=
   forall A mA (SA : sim A mA) B mB (SB : sim B mB) prefix init qs,
     run_history A prefix init qs = run_history B prefix init qs.
 
-(* Proved part: histories of Create / Update / Delete / Get / List requests (correct, stale, zero and future expected
-   revisions; existing, missing, deleted keys; limits; explicit read revisions) that write no empty value.
+(* Proved: every sequential history — Create / Update / Delete / Get / List / Compact; correct, stale, zero and future
+   expected revisions; existing, missing, deleted, deleted-and-compacted keys; limits; explicit read revisions — that
+   writes no empty value (finding C12-F1), for any two adapters that refine the contract, whichever reading of
+   DelCurrent (by value / by version) each implements.
    `plain_ok S`: the batches the programs issue (put-if-absent / compare-and-swap / put / delete, non-empty values) lie
-   outside the C11 deviations of S — shown below for all adapters.  Missing: Compact requests (see props/C12.json). *)
-Theorem C12_engine_independent_partial :
+   outside the C11 deviations of S; `stamped_if_version S`: under the by-version reading every stored key carries a
+   write stamp.  Both are shown below for all adapters. *)
+Theorem C12_engine_independent_except_F1 :
   forall A mA (SA : sim A mA) B mB (SB : sim B mB) prefix init qs,
-    plain_ok SA -> plain_ok SB -> Forall point_ok qs ->
+    plain_ok SA -> stamped_if_version SA -> plain_ok SB -> stamped_if_version SB -> Forall hist_ok qs ->
     run_history A prefix init qs = run_history B prefix init qs.
-Proof. exact engine_independent_points. Qed.
-Print Assumptions C12_engine_independent_partial.
+Proof. exact engine_independent. Qed.
+Print Assumptions C12_engine_independent_except_F1.
 
 Theorem C12_plain_ok_all : forall e, plain_ok (sim_of e).
 Proof. exact plain_ok_of. Qed.
 Print Assumptions C12_plain_ok_all.
 
+Theorem C12_stamped_all : forall e, stamped_if_version (sim_of e).
+Proof. exact stamped_of. Qed.
+Print Assumptions C12_stamped_all.
+
+(* the five engine models, concretely *)
+Theorem C12_engines_agree : forall e1 e2 prefix init qs, Forall hist_ok qs ->
+  run_history (adapter_of e1) prefix init qs = run_history (adapter_of e2) prefix init qs.
+Proof.
+  exact (fun e1 e2 prefix init qs H =>
+           engine_independent _ _ (sim_of e1) _ _ (sim_of e2) prefix init qs
+             (plain_ok_of e1) (stamped_of e1) (plain_ok_of e2) (stamped_of e2) H).
+Qed.
+Print Assumptions C12_engines_agree.
+
 (* every adapter answers as the contract itself would (the reference adapter is the contract on a plain map) *)
-Theorem C12_as_contract : forall A m (S : sim A m), plain_ok S -> forall prefix init qs, Forall point_ok qs ->
+Theorem C12_as_contract : forall A m (S : sim A m), plain_ok S -> stamped_if_version S ->
+  forall prefix init qs, Forall hist_ok qs ->
   run_history A prefix init qs = run_history radapter prefix init qs.
-Proof. exact (fun A m S H prefix init qs => @rel_run_history A m S H prefix init qs). Qed.
+Proof. exact (fun A m S H H' prefix init qs => @rel_run_history_all A m S H H' prefix init qs). Qed.
 Print Assumptions C12_as_contract.
+
+(* the compaction pass: every snapshot record stays unchanged-or-missing, so by-value and by-version agree *)
+Theorem C12_compact_pass : forall A m (S : sim A m), plain_ok S -> stamped_if_version S ->
+  forall rev lim s r a b, Rel S s r ->
+  match worker_run A true rev lim s a b, worker_run radapter true rev lim r a b with
+  | None, None => True
+  | Some (s', _), Some (r', _) => Rel S s' r'
+  | _, _ => False
+  end.
+Proof. exact (fun A m S H H' => @rel_worker_run_true A m S H H'). Qed.
+Print Assumptions C12_compact_pass.
 
 (* the metrics wrapper is transparent for every history, compaction included *)
 Theorem C12_wrapper_transparent : forall A prefix init qs,
@@ -67,7 +96,24 @@ Definition ex_history : list req :=
    QGet ex_key 0; QDelete ex_key 1002; QDelete ex_key 0; QCreate ex_key [118; 54];
    QList (registry ++ [47]) (registry ++ [48]) 0 1; QGet ex_key 1004].
 
-Example C12_ex_valid : Forall point_ok ex_history.
+(* create, delete, compact the tombstone away (DelCurrent on the flagged index record), then a guarded update *)
+Definition ex_compact_history : list req :=
+  [QCreate ex_key [118; 49]; QUpdate ex_key [118; 50] 1001; QDelete ex_key 0; QCompact 0;
+   QUpdate ex_key [118; 51] 1002; QGet ex_key 0; QCreate ex_key [118; 52]; QCompact 1004;
+   QList (registry ++ [47]) (registry ++ [48]) 0 0].
+
+Example C12_ex_compact_valid : Forall hist_ok ex_compact_history.
+Proof. repeat constructor; discriminate. Qed.
+
+(* the pass really deletes: after the first Compact only the compaction record is left in the engine *)
+Example C12_ex_compact_effect :
+  fst (fst (run_history badger registry 1000 [QCreate ex_key [118; 49]; QDelete ex_key 0; QCompact 0])) =
+  [(registry ++ compact_suffix, be64 1002)] /\
+  snd (fst (run_history badger registry 1000 ex_compact_history)) =
+  snd (fst (run_history memkv registry 1000 ex_compact_history)).
+Proof. split; vm_compute; reflexivity. Qed.
+
+Example C12_ex_valid : Forall hist_ok ex_history.
 Proof. repeat constructor; discriminate. Qed.
 
 (* a history in which writes succeed, fail on a condition, a delete tombstones the key and a create revives it;
